@@ -38,6 +38,11 @@ fn esc(s: &str) -> String {
 }
 
 fn run_seed(host_dir: &Path, target: &Path, seed: u64, plan: &str) -> Result<String, String> {
+    run_seed_rate(host_dir, target, seed, None, plan)
+}
+
+/// `rate`: Miri's probability of preempting the running thread at the end of a basic block
+fn run_seed_rate(host_dir: &Path, target: &Path, seed: u64, rate: Option<&str>, plan: &str) -> Result<String, String> {
     let mut c = Command::new("cargo");
     c.current_dir(host_dir);
     c.args(["+nightly", "miri", "run", "--offline", "-q", "--"]);
@@ -45,7 +50,10 @@ fn run_seed(host_dir: &Path, target: &Path, seed: u64, plan: &str) -> Result<Str
     c.arg(format!("--plan={}", plan));
     c.env("CARGO_NET_OFFLINE", "true");
     c.env("CARGO_TARGET_DIR", target);
-    c.env("MIRIFLAGS", format!("-Zmiri-seed={}", seed));
+    match rate {
+        Some(r) => c.env("MIRIFLAGS", format!("-Zmiri-seed={} -Zmiri-preemption-rate={}", seed, r)),
+        None => c.env("MIRIFLAGS", format!("-Zmiri-seed={}", seed)),
+    };
     c.env_remove("RUSTFLAGS");
     c.env_remove("LD_PRELOAD");
     c.stdin(Stdio::null()).stdout(Stdio::piped()).stderr(Stdio::piped());
@@ -75,6 +83,80 @@ pub fn build_plan(texts: &[String]) -> String {
     plan
 }
 
+/// Copies of a small input whose type names are *fresh* (`EntityDto` -> `EntityDtoV3`): whatever
+/// process-wide state an expander keeps about a name is, for each copy, initialised by the
+/// racing threads themselves, however many copies one interpreted process goes through.
+pub fn fresh_name_variants(bases: &[String], per_base: usize) -> Vec<String> {
+    const KEEP: [&str; 24] = ["String", "Vec", "Option", "Some", "None", "Ok", "Err", "Box", "Self", "Default", "Result", "Into", "From", "Clone", "Copy", "Sized", "Send", "Sync", "Iterator", "Item", "Fn", "PartialEq", "Cow", "HashMap"];
+    let mut out = Vec::new();
+    for (bi, b) in bases.iter().enumerate() {
+        for v in 0..per_base {
+            let chars: Vec<char> = b.chars().collect();
+            let mut t = String::with_capacity(b.len() + 64);
+            let mut i = 0;
+            while i < chars.len() {
+                let c = chars[i];
+                let start_of_word = c.is_ascii_uppercase() && (i == 0 || !(chars[i - 1].is_alphanumeric() || chars[i - 1] == '_' || chars[i - 1] == '\'' || chars[i - 1] == '"'));
+                if start_of_word {
+                    let mut j = i;
+                    while j < chars.len() && (chars[j].is_alphanumeric() || chars[j] == '_') {
+                        j += 1;
+                    }
+                    let w: String = chars[i..j].iter().collect();
+                    t.push_str(&w);
+                    // (single capital letters are type parameters)
+                    if w.len() > 1 && !KEEP.contains(&w.as_str()) {
+                        t.push_str(&format!("V{}x{}", bi, v));
+                    }
+                    i = j;
+                } else {
+                    t.push(c);
+                    i += 1;
+                }
+            }
+            out.push(t);
+        }
+    }
+    out
+}
+
+/// Free-running groups (`Y` records): two worker threads start an expansion of the *same*
+/// input together and Miri's seeded scheduler interleaves them, preempting at basic-block
+/// boundaries; a seeded head start moves their relative position around.
+pub fn build_pair_plan(texts: &[String], seed: u64) -> String {
+    let mut rng = crate::prng::Rng::new(seed ^ 0x6d69_7269_5f70);
+    let mut plan = String::new();
+    for (i, t) in texts.iter().enumerate() {
+        plan.push_str(&format!("I {} {}\n", i, esc(t)));
+    }
+    plan.push_str("T 1\nT 2\n");
+    let mut pos = 0;
+    for k in 0..texts.len() {
+        let (s1, s2) = match rng.below(3) {
+            0 => (0, rng.below(200)),
+            1 => (rng.below(200), 0),
+            _ => (0, 0),
+        };
+        // mostly the same input on both threads; sometimes its neighbour
+        let other = if rng.chance(1, 5) { (k + 1) % texts.len() } else { k };
+        plan.push_str(&format!("Y 2 {} 1 {} {} {} 2 {} {}\n", pos, k, s1, pos + 1, other, s2));
+        pos += 2;
+    }
+    plan
+}
+
+/// the same inputs, one after the other on the main thread: the reference for the pairs
+pub fn build_alone_plan(texts: &[String]) -> String {
+    let mut plan = String::new();
+    for (i, t) in texts.iter().enumerate() {
+        plan.push_str(&format!("I {} {}\n", i, esc(t)));
+    }
+    for i in 0..texts.len() {
+        plan.push_str(&format!("E {} 0 {}\n", i, i));
+    }
+    plan
+}
+
 fn renderings(log: &str) -> Result<Vec<(u32, String)>, String> {
     // the host under Miri has no shim: its S line carries zeros but is well-formed
     let l = parse_log(log).map_err(|e| e.0)?;
@@ -95,7 +177,7 @@ pub fn run(cfg: &Cfg, corpus: &Corpus) -> Result<TierResult, String> {
     let mut texts: Vec<String> = Vec::new();
     let mut rej: Vec<&String> = sel.rej.iter().filter(|t| t.len() < 500).collect();
     rej.sort_by_key(|t| t.len());
-    let mut acc: Vec<&String> = sel.acc.iter().filter(|t| t.len() < 500 && (t.contains("child") || t.contains("parent") || t.matches("#[").count() >= 4)).collect();
+    let mut acc: Vec<&String> = sel.acc.iter().filter(|t| t.len() < 500 && (t.contains("child") || t.contains("parent") || t.contains("| ") || t.matches("#[").count() >= 4)).collect();
     acc.sort_by_key(|t| t.len());
     let n_inputs: usize = std::env::var("SIM_MIRI_INPUTS").ok().and_then(|s| s.parse().ok()).unwrap_or(6);
     for t in rej.iter().take(n_inputs / 2) {
@@ -166,7 +248,133 @@ pub fn run(cfg: &Cfg, corpus: &Corpus) -> Result<TierResult, String> {
             Err(_) => failed_runs += 1,
         }
     }
+    // ---- free-running pairs under Miri's scheduler
+    // the shortest inputs that have member-level instructions naming a counterpart, in copies with fresh type names
+    let mut bases: Vec<String> = sel.acc.iter().chain(sel.rej.iter()).filter(|t| t.len() < 400 && t.contains("| ")).cloned().collect();
+    bases.sort_by_key(|t| t.len());
+    bases.truncate(3);
+    if bases.is_empty() {
+        bases = texts.iter().take(3).cloned().collect();
+    }
+    let per_base: usize = std::env::var("SIM_MIRI_PAIR_COPIES").ok().and_then(|s| s.parse().ok()).unwrap_or(4);
+    let pair_texts = fresh_name_variants(&bases, per_base);
+    let alone_plan = build_alone_plan(&pair_texts);
+    let alone_r = match run_seed(&host_dir, &target, 0, &alone_plan) {
+        Ok(r) => renderings(&r)?,
+        Err(e) => return Ok(TierResult { json: json!({"ran": false, "note": format!("Miri could not run the host: {}", e)}), violation: None }),
+    };
+    let rates = ["0.01", "0.05", "0.2", "0.5"];
+    let n_pair_seeds: u64 = std::env::var("SIM_MIRI_PAIR_SEEDS").ok().and_then(|s| s.parse().ok()).unwrap_or(16);
+    let pair_seeds: Vec<u64> = (0..n_pair_seeds).collect();
+    let next = AtomicUsize::new(0);
+    let pair_results: Mutex<Vec<(u64, &str, String, Result<String, String>)>> = Mutex::new(Vec::new());
+    std::thread::scope(|s| {
+        for _ in 0..12.min(pair_seeds.len()) {
+            s.spawn(|| loop {
+                let i = next.fetch_add(1, Ordering::SeqCst);
+                if i >= pair_seeds.len() {
+                    break;
+                }
+                let rate = rates[i % rates.len()];
+                let pair_plan = build_pair_plan(&pair_texts, cfg.seed ^ pair_seeds[i]);
+                let r = run_seed_rate(&host_dir, &target, 1000 + pair_seeds[i], Some(rate), &pair_plan);
+                pair_results.lock().unwrap().push((1000 + pair_seeds[i], rate, pair_plan, r));
+            });
+        }
+    });
+    let mut pair_results = pair_results.into_inner().unwrap();
+    pair_results.sort_by_key(|r| r.0);
+    let mut pair_equal = 0;
+    let mut pair_failed = 0;
+    let mut pair_violation: Option<(String, u64, String, String)> = None;
+    for (seed, rate, pair_plan, r) in &pair_results {
+        match r {
+            Ok(log) => {
+                let rr = renderings(log)?;
+                let mut same = true;
+                for a in &rr {
+                    let Some(b) = alone_r.iter().find(|b| b.0 == a.0) else { continue };
+                    if a.1 != b.1 {
+                        same = false;
+                        if pair_violation.is_none() {
+                            pair_violation = Some((format!("input {} rendered differently when two threads expanded concurrently under Miri's scheduler (seed {}, preemption rate {}) than alone (seed 0): {}", a.0, seed, rate, first_diff(&b.1, &a.1)), *seed, rate.to_string(), pair_plan.clone()));
+                        }
+                        break;
+                    }
+                }
+                if same {
+                    pair_equal += 1;
+                }
+            },
+            Err(_) => pair_failed += 1,
+        }
+    }
     let mut vio_out = None;
+    if violation.is_none() {
+        if let Some((msg, seed, rate, pair_plan)) = &pair_violation {
+            let path = cfg.verif.join("replays").join(format!("C19-{}-miri-pairs.json", cfg.seed));
+            let _ = std::fs::create_dir_all(cfg.verif.join("replays"));
+            // minimise: the failing pair alone, under several seeds (the schedule of a shorter
+            // history is another schedule); kept only if it fails the same way
+            let failing_input: Option<u32> = msg.strip_prefix("input ").and_then(|m| m.split(' ').next()).and_then(|x| x.parse().ok());
+            let (mut ref_plan_out, mut plan_out, mut seed_out, mut minimised) = (alone_plan.clone(), pair_plan.clone(), *seed, false);
+            if let Some(fi) = failing_input {
+                if let Some(yline) = pair_plan.lines().find(|l| l.starts_with("Y ") && { let f: Vec<&str> = l.split(' ').collect(); f.len() == 10 && (f[4] == fi.to_string() || f[8] == fi.to_string()) }) {
+                    let f: Vec<&str> = yline.split(' ').collect();
+                    let ids: Vec<u32> = vec![f[4].parse().unwrap_or(0), f[8].parse().unwrap_or(0)];
+                    let mut small = String::new();
+                    let mut small_alone = String::new();
+                    for l in pair_plan.lines().filter(|l| l.starts_with("I ")) {
+                        let id: u32 = l.split(' ').nth(1).and_then(|x| x.parse().ok()).unwrap_or(u32::MAX);
+                        if ids.contains(&id) {
+                            small.push_str(l);
+                            small.push('\n');
+                            small_alone.push_str(l);
+                            small_alone.push('\n');
+                        }
+                    }
+                    small.push_str("T 1\nT 2\n");
+                    small.push_str(yline);
+                    small.push('\n');
+                    let mut uniq = ids.clone();
+                    uniq.dedup();
+                    for (k, id) in uniq.iter().enumerate() {
+                        small_alone.push_str(&format!("E {} 0 {}\n", k, id));
+                    }
+                    let found = AtomicUsize::new(usize::MAX);
+                    let cand: Vec<u64> = (0..24).map(|k| if k == 0 { *seed } else { 2000 + k }).collect();
+                    let next = AtomicUsize::new(0);
+                    std::thread::scope(|sc| {
+                        for _ in 0..12 {
+                            sc.spawn(|| loop {
+                                let i = next.fetch_add(1, Ordering::SeqCst);
+                                if i >= cand.len() || found.load(Ordering::SeqCst) != usize::MAX {
+                                    break;
+                                }
+                                if let Ok(log) = run_seed_rate(&host_dir, &target, cand[i], Some(rate), &small) {
+                                    if let Ok(rr) = renderings(&log) {
+                                        if rr.iter().any(|a| alone_r.iter().find(|b| b.0 == a.0).map(|b| b.1 != a.1).unwrap_or(false)) {
+                                            found.fetch_min(i, Ordering::SeqCst);
+                                        }
+                                    }
+                                }
+                            });
+                        }
+                    });
+                    let fi = found.load(Ordering::SeqCst);
+                    if fi != usize::MAX {
+                        ref_plan_out = small_alone;
+                        plan_out = small;
+                        seed_out = cand[fi];
+                        minimised = true;
+                    }
+                }
+            }
+            let v = json!({"property": "C19", "kind": "miri_tier", "what": msg, "repo": cfg.repo.to_string_lossy(), "reference_plan": ref_plan_out, "plan": plan_out, "seed_a": 0, "seed_b": seed_out, "preemption_rate": rate, "minimised_to_one_pair": minimised});
+            std::fs::write(&path, serde_json::to_string_pretty(&v).unwrap()).map_err(|e| e.to_string())?;
+            vio_out = Some((msg.clone(), path));
+        }
+    }
     if let Some((msg, sa, sb)) = &violation {
         let path = cfg.verif.join("replays").join(format!("C19-{}-miri.json", cfg.seed));
         let _ = std::fs::create_dir_all(cfg.verif.join("replays"));
@@ -175,7 +383,9 @@ pub fn run(cfg: &Cfg, corpus: &Corpus) -> Result<TierResult, String> {
         vio_out = Some((msg.clone(), path));
     }
     Ok(TierResult {
-        json: json!({"ran": true, "inputs": texts.len(), "expansions_per_seed": texts.len() * 2, "seeds": n_seeds, "runs_equal_to_seed0": equal, "runs_failed_to_execute": failed_runs, "wall_s": t0.elapsed().as_secs_f64(),
+        json: json!({"ran": true, "inputs": texts.len(), "expansions_per_seed": texts.len() * 2, "seeds": n_seeds, "runs_equal_to_seed0": equal, "runs_failed_to_execute": failed_runs,
+                     "concurrent_pair_runs": pair_results.len(), "concurrent_pair_runs_equal_to_alone": pair_equal, "concurrent_pair_runs_failed_to_execute": pair_failed, "concurrent_pairs_per_run": pair_results.first().map(|r| r.2.lines().filter(|l| l.starts_with("Y ")).count()).unwrap_or(0), "preemption_rates": rates,
+                     "wall_s": t0.elapsed().as_secs_f64(),
                      "what_varies": "with isolation on, Miri derives getrandom (RandomState keys) and all allocation addresses from -Zmiri-seed"}),
         violation: vio_out,
     })
@@ -186,6 +396,27 @@ pub fn replay(cfg: &Cfg, v: &Value, path: &Path) -> i32 {
     let target = cfg.build_dir.join("target-miri");
     let plan = v["plan"].as_str().unwrap_or("").to_string();
     let (sa, sb) = (v["seed_a"].as_u64().unwrap_or(0), v["seed_b"].as_u64().unwrap_or(1));
+    if let Some(ref_plan) = v["reference_plan"].as_str() {
+        let rate = v["preemption_rate"].as_str().unwrap_or("0.01").to_string();
+        return match (run_seed(&host_dir, &target, sa, ref_plan), run_seed_rate(&host_dir, &target, sb, Some(&rate), &plan)) {
+            (Ok(a), Ok(b)) => {
+                let (Ok(ra), Ok(rb)) = (renderings(&a), renderings(&b)) else { return 2 };
+                let differs = rb.iter().any(|x| ra.iter().find(|y| y.0 == x.0).map(|y| y.1 != x.1).unwrap_or(false));
+                if differs {
+                    println!("replay (miri tier, concurrent pairs): renderings differ");
+                    println!("VIOLATION property=C19 replay={}", path.display());
+                    1
+                } else {
+                    println!("replay (miri tier): no longer reproduces");
+                    0
+                }
+            },
+            (Err(e), _) | (_, Err(e)) => {
+                eprintln!("harness error: {}", e);
+                2
+            },
+        };
+    }
     match (run_seed(&host_dir, &target, sa, &plan), run_seed(&host_dir, &target, sb, &plan)) {
         (Ok(a), Ok(b)) => {
             let (Ok(ra), Ok(rb)) = (renderings(&a), renderings(&b)) else { return 2 };
